@@ -6,7 +6,8 @@ package actionlint
 //
 // Space: (a) all token sequences up to length n over a 22-token alphabet, rendered with single
 // spaces and (short ones) with every gap closed / widened; (b) all character strings up to length
-// m over the 26 lexically relevant characters; (c) a numeric sub-enumeration. Oracle: reference
+// m over the 26 lexically relevant characters; (c) a numeric sub-enumeration; (d) one separator from a 26-character alphabet (blanks, control
+// characters, Unicode spaces, foreign punctuation) at every gap of every token sequence <= 3. Oracle: reference
 // tokeniser + recursive-descent recogniser written from DESIGN appendix A (not from the code).
 
 import (
@@ -707,6 +708,51 @@ func TestVerifC04(t *testing.T) {
 			}
 		}
 	}
+	// (d) one separator character from a wider alphabet (the four blanks of the grammar, other
+	// control characters, Unicode spaces, punctuation outside the grammar) at every gap of every
+	// token sequence of length <= 3: only ' ', \t, \n, \r are white space
+	seps := []string{"\t", "\n", "\r", "\r\n", "\v", "\f", "\x00", "\x1f", "\x7f", "\u00a0", "\u2028", "\u3000", "\ufeff", "#", "$", "@", "~", "^", "%", ";", ":", "?", "/", "\\", "{", "`"}
+	for l := 1; l <= 3; l++ {
+		total := int64(1)
+		for i := 0; i < l; i++ {
+			total *= k
+		}
+		for v := int64(0); v < total; v++ {
+			idx++
+			if !r.Mine(idx) {
+				continue
+			}
+			if idx%(1<<12) == 0 && r.Expired() {
+				return
+			}
+			seq = seq[:0]
+			x := v
+			for i := 0; i < l; i++ {
+				seq = append(seq, c04Tokens[x%k])
+				x /= k
+			}
+			for gap := 0; gap <= l; gap++ {
+				for _, sp := range seps {
+					var b strings.Builder
+					for i, tk := range seq {
+						if i == gap {
+							b.WriteString(sp)
+						} else if i > 0 {
+							b.WriteString(" ")
+						}
+						b.WriteString(tk)
+					}
+					if gap == l {
+						b.WriteString(sp)
+					}
+					src := b.String() + "}}"
+					r.Begin(func() string { return fmt.Sprintf("separator %q", src) })
+					c04Compare(r, src)
+				}
+			}
+		}
+	}
+	r.Bounds["separator_alphabet"] = len(seps)
 	// (b) character strings
 	kc := int64(len(c04Chars))
 	buf := make([]byte, 0, m+2)
